@@ -26,13 +26,13 @@ def leaf(fn, F):
     sym = hir.Sym(env, F)
     body = fn["hir"]["body"]
     out = {"draw": None, "mate": None}
-    for n, anc in hir.walk(body):
-        if n.get("k") != "Ret" or n.get("e") is None:
+    for n, lv, wr in hir.return_leaves(body):
+        if lv is None:
             continue
-        g = [(hir.fmt(x[1], 200), x[2]) for x in (hir.guards_of(n, body, sym) or []) if x[0] == "if"]
+        g = [(hir.fmt(x[1], 200), x[2]) for x in (hir.guards_of(lv, body, sym) or []) if x[0] == "if"]
         if not any(t.endswith("is_empty(moves)") and pol is True for t, pol in g):
             continue
-        v = hir.resolve_consts(sym(n["e"]), F)
+        v = hir.resolve_consts(hir.wrap_value(sym(lv), wr), F)
         if v[0] == "ctor" and str(v[1]).endswith("::Some"):
             v = v[2][0]
         cond = [x for x in g if "king_exists" in x[0] or "is_targeted" in x[0]]
@@ -156,13 +156,13 @@ def n4(ctx, F):
         env = hir.Env(fn["hir"], F)
         sym = hir.Sym(env, F)
         body = fn["hir"]["body"]
-        rets = [(n, n.get("e")) for n, _ in hir.walk(body) if n.get("k") == "Ret"]
+        rets = hir.return_leaves(body)
         tail = hir.strip(body).get("expr")
         kinds = []
         unknown = []
-        for n, e in rets:
-            v = hir.resolve_consts(sym(e), F) if e is not None else ("unit",)
-            g = [(hir.fmt(hir.canon(x[1]), 200), x[2]) for x in (hir.guards_of(n, body, sym) or []) if x[0] == "if"]
+        for n, e, wr in rets:
+            v = hir.resolve_consts(hir.wrap_value(sym(e), wr), F) if e is not None else ("unit",)
+            g = [(hir.fmt(hir.canon(x[1]), 200), x[2]) for x in (hir.guards_of(e if e is not None else n, body, sym) or []) if x[0] == "if"]
             gt = [t for t, p in g if p is True]
             vt = hir.fmt(v, 160)
             kind = None
